@@ -1,6 +1,7 @@
 package props
 
 import (
+	"go/types"
 	"fmt"
 	"go/token"
 	"strings"
@@ -195,6 +196,48 @@ func runC04(c *eng.Ctx) {
 			a := eng.CallArgs(r.Instr.(*ssa.Call))
 			c.Check(fromSrcStore(a[0], csrc) && isSrcID(a[1], csrc), fmt.Sprintf("delete:key[%d]", i), r.Instr, cr, "the reference is deleted under (source store, source family id)", "deletes ("+p.Desc(a[0])+", "+p.Desc(a[1])+")")
 		}
+	})
+
+	// ---- 5d. version state bookkeeping of the marks ---------------------------------------------------------------------------------------
+	c.Rule("UNION", vsT+".createFamilySnapshot{rollup marks and references are enumerated from their own maps}", func() {
+		snapshotEnumeratesStateMaps(c, c.Fn(vsT+".createFamilySnapshot"))
+	})
+	c.Rule("GUARD", "kv/version.rollup.removeReferenceFile{a store's entry is dropped only when no family is left in it}", func() {
+		f := c.Fn("kv/version.rollup.removeReferenceFile")
+		fs := p.MustFacts(f)
+		n := 0
+		for _, b := range f.Blocks {
+			for _, in := range b.Instrs {
+				cl, ok := in.(*ssa.Call)
+				if !ok {
+					continue
+				}
+				bi, ok := cl.Common().Value.(*ssa.Builtin)
+				if !ok || bi.Name() != "delete" || !eng.DependsOnField(cl.Common().Args[0], "kv/version.rollup.referenceFiles") {
+					continue
+				}
+				if _, inner := eng.Unwrap(cl.Common().Args[0]).(*ssa.Extract); inner {
+					continue // delete(families, familyID): the inner map
+				}
+				if _, inner := eng.Unwrap(cl.Common().Args[0]).(*ssa.Lookup); inner {
+					continue
+				}
+				n++
+				at := fs.At(in)
+				empt := fs.Find(at, "eq", func(d string, v ssa.Value) bool {
+					lc, ok := v.(*ssa.Call)
+					if !ok || !strings.HasPrefix(d, "builtin:len(") || len(lc.Common().Args) != 1 {
+						return false
+					}
+					_, isMap := lc.Common().Args[0].Type().Underlying().(*types.Map)
+					return isMap && eng.DependsOnField(v, "kv/version.rollup.referenceFiles")
+				}, eng.DescIs("0"))
+				c.Check(len(empt) > 0, fmt.Sprintf("outer-delete[%d]", n), in, f,
+					"delete(referenceFiles, store) is reached only when the store's family map is empty: the marks of the OTHER source families of that store must survive",
+					"facts at the delete: "+strings.Join(fs.Render(at), ", "))
+			}
+		}
+		c.Check(n >= 1, "outer-delete-found", nil, f, "the store entry is dropped somewhere", fmt.Sprintf("%d", n))
 	})
 
 	// ---- 8. both ends by the same mapping ----------------------------------------------------------------------------------------------
